@@ -10,6 +10,7 @@ EXTENDS AnyVec, Json, TLC, TLCExt
 CONSTANTS Alpha,      \* set of enabled operation names
           MaxLen, MaxLenB, MaxExt, MaxOut, MaxRepl, MaxIters,
           MaxCap,     \* bound on the modelled capacity (models that track capacity)
+          MaxLazyDepth, MaxLazyN,
           OneHandle,  \* TRUE: at most one vector has an outstanding handle at a time (bounds the product space)
           SinkKinds,  \* value-sink kinds explored: subset of {"drop","ext","push","insert","forget"}
           Srcs,       \* value-source kinds for push/insert/splice: subset of {"wrapper","raw","typed"}
@@ -46,12 +47,24 @@ MutCount == Cardinality({i \in 1..Len(AllElems(st)) : AllElems(st)[i][2] = 1})
 (* Every generated transition gets a fresh number from a TLC register (run with -workers 1).  Since the state TLC   *)
 (* keeps for a fingerprint is the first one generated, `nid` of a state is the number of the transition that       *)
 (* discovered it: the printed <<nid, nid', action>> triples form a tree (trie of action paths) over all transitions. *)
-Do(a) == /\ LET r == Apply(st, a, Fresh(st, MaxRepl + 1)) IN
+Do(a) == /\ LET r == Apply(st, a, Fresh(st, MaxRepl + MaxLen + MaxLazyN + 1)) IN
               /\ Len(r.st.ext) <= MaxExt        \* a rejected raw-pointer value comes back to the driver
               /\ \A w \in Vecs : r.st.v[w].cap <= MaxCap
               /\ st' = r.st
          /\ last' = a
          /\ nid' = TLCGetAndSet(1, LAMBDA x, y : x + y, 1, 0) + 1
+
+LS(k, to, i, s0, e0) == [k |-> k, to |-> to, i |-> i, s |-> s0, e |-> e0]
+(* sinks of a lazy-clone consumption taken from vector x *)
+LazySinks(x) ==
+  (IF Len(st.ext) < MaxExt THEN {LS("ext", "", 0, 0, 0)} ELSE {})
+  \cup UNION {{LS("push", w, 0, 0, 0)} \cup {LS("insert", w, i, 0, 0) : i \in 0..(Len(st.v[w].el) + 1)}
+              \cup UNION {{LS("splice", w, 0, s0, e0) : e0 \in {e1 \in 0..Len(st.v[w].el) : e1 >= s0 /\ e1 <= s0 + 1}} : s0 \in 0..Len(st.v[w].el)}
+              : w \in {w \in Vecs \ {x} : Quiet(st, w) /\ (Len(st.v[w].el) < CapOf(w) \/ Cfg.fixed)}}
+LazyDo(x, kind, i) ==
+  \E d \in 1..MaxLazyDepth, n \in 0..MaxLazyN, sk \in LazySinks(x) :
+     /\ (sk.k = "ext" => Len(st.ext) + n <= MaxExt)
+     /\ Do([op |-> "lazy", v |-> x, kind |-> kind, i |-> i, depth |-> d, n |-> n, sink |-> sk])
 
 (* range argument instances: every (s, e) around the valid region in the requested forms *)
 RangeArgs(n) ==
@@ -105,12 +118,16 @@ Next ==
             \/ Do([op |-> "shrink_to_fit", v |-> x, n |-> 0, path |-> p])
             \/ \E n \in (0..(MaxCap + 1)) \cup {Cfg.maxu} : Do([op |-> "shrink_to", v |-> x, n |-> n, path |-> p])
        \/ "recreate" \in Alpha /\ ~Cfg.fixed /\ \E n \in 0..3 : Do([op |-> "recreate", v |-> x, n |-> n])
+       \/ "clone" \in Alpha /\ \E w \in Vecs \ {x} : Quiet(st, w) /\ Do([op |-> "clone_vec", v |-> x, to |-> w])
+       \/ "ce_probe" \in Alpha /\ \E via \in {"same", "heap", "stack", "stackn", "fence"} : Do([op |-> "ce_probe", v |-> x, via |-> via])
+       \/ "lazy" \in Alpha /\ \E i \in 0..(Len0(x) - 1) : LazyDo(x, "elem", i)
        \/ "iter" \in Alpha /\ \E kind \in {"iter", "iter_mut", "titer", "titer_mut"} :
             Do([op |-> "iter_begin", v |-> x, kind |-> kind])
   \/ \E x \in Vecs : st.v[x].h.k = "tmp" /\
        \/ \E sk \in Sinks(x, AllSinks) : Do([op |-> "consume", v |-> x, sink |-> sk])
        \/ "hmutate" \in Alpha /\ MutCount = 0 /\ \E via \in {"downcast_mut", "bytes_mut"} :
             Do([op |-> "hmutate", v |-> x, via |-> via])
+       \/ "lazy" \in Alpha /\ LazyDo(x, "handle", 0)
   \/ \E x \in Vecs : st.v[x].h.k = "range" /\
        \/ \E end \in {"front", "back"},
              sk \in Sinks(x, IF st.v[x].h.path = "typed" THEN {"drop", "ext"}
@@ -122,6 +139,7 @@ Next ==
        \/ "forget" \in Alpha /\ (st.v[x].h.out = <<>> \/ "outlive" \in Alpha) /\ Do([op |-> "range_forget", v |-> x])
   \/ \E x \in Vecs : st.v[x].h.k \in {"range", "items"} /\
        \E k \in 1..Len(st.v[x].h.out), sk \in Sinks(x, AllSinks) : Do([op |-> "item_consume", v |-> x, k |-> k, sink |-> sk])
+  \/ \E x \in Vecs : st.v[x].h.k = "range" /\ "lazy" \in Alpha /\ \E k \in 0..(Len(st.v[x].h.out) - 1) : LazyDo(x, "item", k)
   \/ \E x \in Vecs : st.v[x].h.k = "iter" /\
        \/ \E k \in 1..Len(st.v[x].h.its), end \in {"front", "back"} : Do([op |-> "iter_next", v |-> x, k |-> k, end |-> end])
        \/ \E k \in 1..Len(st.v[x].h.its) : Len(st.v[x].h.its) < MaxIters /\ st.v[x].h.kind \in {"iter", "titer"} /\
